@@ -185,3 +185,19 @@ def add_fanout(rng, prog):
     if n == 0 and prog["handlers"]:
         next(iter(prog["handlers"].values())).append(["fanfire", next(iter(fan))])
     return prog
+
+
+def add_simlisteners(rng, prog, types=("WARMUP_EVENT", "TIME_CHANGED_EVENT")):
+    """listeners the model subscribes to the simulator's own notifications in construct_model; they draw from the
+    model's streams (and the warm-up / start ones may schedule events)"""
+    if "streams" not in prog:
+        prog["streams"] = [{"name": "s1", "seed": rng.randint(1, 10 ** 6)}, {"name": "s2", "seed": rng.randint(1, 10 ** 6)}]
+    ls = []
+    for k in range(rng.randint(1, 3)):
+        t = rng.choice(list(types))
+        script = [["draw", rng.choice(["s1", "s2"])]]
+        if t != "TIME_CHANGED_EVENT" and rng.random() < 0.5:
+            script.append(["schedrel", rng.choice(["s1", "s2"]), rng.choice([1, 5, 9])])
+        ls.append({"name": f"SL{k}", "type": t, "script": script})
+    prog["simlisteners"] = ls
+    return prog
